@@ -175,6 +175,22 @@ func invariants(w *treesim.World, sinceSeq int) (out []finding, views []treesim.
 				out = append(out, finding{"stored-change-without-snapshot-base", fmt.Sprintf("r%d stores %s but not its snapshot base %s", r.Idx, s.Id, s.Snapshot)})
 			}
 		}
+		// the stored sequence (by order id) is what a restart and every full-sync response are built from: parents
+		// come first and no two changes share an order id
+		pos := map[string]int{}
+		for i, s := range v.Stored {
+			pos[s.Id] = i
+			if i > 0 && v.Stored[i-1].OrderId >= s.OrderId {
+				out = append(out, finding{"stored-order-ids-not-increasing", fmt.Sprintf("r%d stores %s with order id %q after %s with %q", r.Idx, s.Id, s.OrderId, v.Stored[i-1].Id, v.Stored[i-1].OrderId)})
+			}
+		}
+		for i, s := range v.Stored {
+			for _, p := range s.PrevIds {
+				if pi, ok := pos[p]; ok && pi > i {
+					out = append(out, finding{"stored-order-child-before-parent", fmt.Sprintf("r%d stores %s (position %d) before its parent %s (position %d)", r.Idx, s.Id, i, p, pi)})
+				}
+			}
+		}
 		for _, h := range v.StorageHeads {
 			if !stored[h] {
 				out = append(out, finding{"recorded-head-not-stored", fmt.Sprintf("r%d head storage names %s which is not stored", r.Idx, h)})
